@@ -6,7 +6,10 @@
    * the path-data scanner consumes input on every instruction, so it stops (`path_scanner_total`);
    * the expression evaluator's descent, variable lookup and string scanners never exhaust the fuel their
      entry points supply, for ARBITRARY token strings (`expression_*`): the model has no hidden divergence,
-     and the recursion depth is bounded by the input length - the code's stack is not, see the findings;
+     and the nesting the descent reaches is bounded by a scan of the tokens (`nestingDepth`), which is what
+     the code's guard refuses past 100 levels (`expression_scan_bounds_recursion`, `guard_is_a_depth_budget`);
+   * the bearing rewriting of path data (`B` / `b` commands) consumes input on every instruction
+     (`bearing_scanner_total`);
    * the retry loop needs at most n+1 passes and idle passes are bounded (`retry_*`), loops stop at the
      limit and depth is bounded (C17);
    * `panic_sites_reviewed` / `recursion_reviewed`: the tables of unwrap / expect / panic! / index sites and
@@ -16,6 +19,8 @@
   aborts and hangs of the real code are searched for by the isolated fuzz streams of the check.
 -/
 import Svgdx.Proofs.PathScan
+import Svgdx.Proofs.ExprDepth
+import Svgdx.Proofs.Bearing
 import Svgdx.Proofs.ExprFuel
 import Svgdx.Proofs.Sched
 import Svgdx.Props.C10
@@ -60,6 +65,45 @@ theorem expression_nesting_guard {α σ : Type} (o : Ops α σ) (lkB : Nat → L
     (h : maxExprDepth < base + nestingDepth ts) :
     evaluateAt o lkB elref base ck ts st = .error .depthLimit := by
   simp only [evaluateAt, h, if_true]
+
+open Expr in
+/-- **the token scan bounds the nesting the descent really reaches.** `evaluateD` is the descent with a
+    depth budget that is spent at exactly the three places where `primary` re-enters itself (an open
+    parenthesis, a unary minus, a function call) and answers `DepthLimitExceeded` when it runs out; with
+    a budget of `nestingDepth ts` it never does - it IS `evaluate`, for every token list, well formed or
+    not. So an expression the guard lets through nests at most 100 re-entries deep. -/
+theorem expression_scan_bounds_recursion {α σ : Type} (o : Ops α σ) (lk : Lookup α σ) (elref : Str → Res α)
+    (d : Nat) (ck : List Str) (ts : List (Token α)) (st : σ) (h : nestingDepth ts ≤ d) :
+    evaluateD o lk elref d ck ts st = evaluate o lk elref ck ts st :=
+  evaluateD_eq_evaluate o lk elref d ck ts st h
+
+open Expr in
+/-- the guard, read as a budget: evaluating at depth `base` what the guard admits is the budgeted descent
+    with what is left of the 100 levels -/
+theorem guard_is_a_depth_budget {α σ : Type} (o : Ops α σ) (lkB : Nat → Lookup α σ) (elref : Str → Res α)
+    (base : Nat) (ck : List Str) (ts : List (Token α)) (st : σ)
+    (h : base + nestingDepth ts ≤ maxExprDepth) :
+    evaluateAt o lkB elref base ck ts st
+      = evaluateD o (lkB (base + nestingDepth ts + 1)) elref (maxExprDepth - base) ck ts st :=
+  evaluateAt_eq_evaluateD o lkB elref base ck ts st h
+
+open Expr in
+/-- a budget can only ever turn an answer into `DepthLimitExceeded`, never into another answer -/
+theorem depth_budget_only_refuses {α σ : Type} (o : Ops α σ) (lk : Lookup α σ) (elref : Str → Res α)
+    (d : Nat) (ck : List Str) (ts : List (Token α)) (st : σ) :
+    evaluateD o lk elref d ck ts st = evaluate o lk elref ck ts st ∨
+      evaluateD o lk elref d ck ts st = .error .depthLimit :=
+  evaluateD_eq_or_depthLimit o lk elref d ck ts st
+
+/-- **the bearing rewriting of path data ends on every `d` string**, for any number operations -/
+theorem bearing_scanner_total {α σ : Type} (o : Expr.Ops α σ) (d : Str) :
+    Bearing.processPathBearing o d ≠ .outOfFuel := Bearing.processPathBearing_total o d
+
+/-- … and what it writes contains no bearing command any more (given that numbers are not printed with a
+    `B` or `b` in them) -/
+theorem bearing_commands_removed {α σ : Type} (o : Expr.Ops α σ) (hf : ∀ x, Bearing.NoB (o.fstr x))
+    (d out : Str) (h : Bearing.processPathBearing o d = .ok out) : Bearing.NoB out :=
+  Bearing.processPathBearing_noB_out o hf d out h
 
 open Expr in
 /-- … and every variable on the way costs a level: the lookups made while evaluating at depth `d` are
@@ -171,6 +215,11 @@ end Svgdx.Props.C01
 #print axioms Svgdx.Props.C01.expression_lookup_total
 #print axioms Svgdx.Props.C01.expression_nesting_guard
 #print axioms Svgdx.Props.C01.expression_lookup_deeper
+#print axioms Svgdx.Props.C01.expression_scan_bounds_recursion
+#print axioms Svgdx.Props.C01.guard_is_a_depth_budget
+#print axioms Svgdx.Props.C01.depth_budget_only_refuses
+#print axioms Svgdx.Props.C01.bearing_scanner_total
+#print axioms Svgdx.Props.C01.bearing_commands_removed
 #print axioms Svgdx.Props.C01.expression_entry_points_total
 #print axioms Svgdx.Props.C01.retry_passes_bounded
 #print axioms Svgdx.Props.C01.panic_sites_reviewed
